@@ -2589,7 +2589,11 @@ pub fn assign(env: &REnv, lhs: &EvaluatedLvalue, rt: Option<&ObjType>, rhs: Obj)
                     || Ok(unwrap_or_clone(ls)),
                     "Can't unpack into mismatched length",
                 ),
-                Obj::Seq(seq) => match seq.len() {
+                Obj::Seq(seq) => match match &seq {
+                    // a string unpacks into its characters, so count those (len is in bytes)
+                    Seq::String(s) => Some(s.chars().count()),
+                    seq => seq.len(),
+                } {
                     Some(len) => assign_all(
                         env,
                         ss,
